@@ -24,7 +24,7 @@ func vCrashDirs() {
 // vCrashPut: a well-formed upload of blob A (declared size = stream length =
 // blob length, bytes equal) is killed at the k-th file-system step (or not at
 // all); the server restarts; the key is read with the size known or unknown.
-func vCrashPut(kind cache.EntryKind, mode casblob.CompressionType, maxSteps int, fixedSize int64) {
+func vCrashPut(kind cache.EntryKind, mode casblob.CompressionType, maxSteps int, fixedSize int64, bad bool) {
 	d := vNewDisk(0, mode, nil, false)
 	c := d.c
 	vCrashDirs()
@@ -36,6 +36,12 @@ func vCrashPut(kind cache.EntryKind, mode casblob.CompressionType, maxSteps int,
 		u.st = &vmodel.MStream{Name: "upload", L: fixedSize, FailAt: -1}
 		u.bl = &vmodel.BlobSpec{Stream: "upload", Hash: vHashA, N: fixedSize, D: fixedSize}
 		vmodel.Blobs = []*vmodel.BlobSpec{u.bl}
+		if bad {
+			// right length, wrong bytes: the stream differs from blob A at byte D
+			u.bl.D = vsym.Int64("firstDifference")
+			vsym.Assume(u.bl.D >= 0)
+			vsym.Assume(u.bl.D < fixedSize)
+		}
 	} else {
 		u = vArbitraryUpload(vHashA, 2<<20, 0)
 		vsym.Assume(u.size >= 1)
@@ -53,6 +59,9 @@ func vCrashPut(kind cache.EntryKind, mode casblob.CompressionType, maxSteps int,
 
 	err := c.Put(context.Background(), kind, vHashA, u.size, u.st)
 	acked := err == nil && !vmodel.FS.Dead
+	if bad {
+		vsym.Assert(!acked, "crash/C01-upload-of-wrong-bytes-acknowledged")
+	}
 	if crashAt != 0 && !vmodel.FS.Dead {
 		vsym.Stop("the upload has fewer file-system steps than the crash point")
 	}
@@ -96,6 +105,11 @@ func vCrashPut(kind cache.EntryKind, mode casblob.CompressionType, maxSteps int,
 		return
 	}
 	vsym.Reach("served-after-restart")
+	if bad {
+		// whatever the crash point: bytes that are not blob A are never served as A
+		vsym.Assert(false, "crash/C08-rejected-upload-served-after-restart")
+		return
+	}
 	vsym.Assert(found == u.size, "crash/C08-served-entry-has-the-uploaded-size")
 	if kind == cache.CAS && mode == casblob.Zstandard {
 		// content of compressed entries: covered by header validation; the
@@ -123,9 +137,13 @@ func vCrashPut(kind cache.EntryKind, mode casblob.CompressionType, maxSteps int,
 	_ = rc.Close()
 }
 
-func VerifCrashPutCasRaw()  { vCrashPut(cache.CAS, casblob.Identity, 8, 0) }
-func VerifCrashPutAC()      { vCrashPut(cache.AC, casblob.Zstandard, 8, 0) }
-func VerifCrashPutCasZstd() { vCrashPut(cache.CAS, casblob.Zstandard, 14, 1500000) }
+func VerifCrashPutCasRaw()  { vCrashPut(cache.CAS, casblob.Identity, 8, 0, false) }
+func VerifCrashPutAC()      { vCrashPut(cache.AC, casblob.Zstandard, 8, 0, false) }
+func VerifCrashPutCasZstd() { vCrashPut(cache.CAS, casblob.Zstandard, 14, 1500000, false) }
+
+// the same upload with wrong bytes (right length): refused, and at no crash
+// point is the file left in a state the restarted server would serve
+func VerifCrashPutCasZstdBad() { vCrashPut(cache.CAS, casblob.Zstandard, 14, 1500000, true) }
 
 func vLE(b []byte, off, n int) int64 {
 	v := int64(0)
@@ -135,13 +153,14 @@ func vLE(b []byte, off, n int) int64 {
 	return v
 }
 
-// vCrashFetch: a blob is being fetched from the backend (compressed CAS
-// storage: the backend delivers a finished casblob file, header first) when
-// the process is killed at the k-th file-system step; restart; read the key.
-// The file on disk carries a perfectly valid header and may be truncated.
-func vCrashFetch() {
-	const logical = 1500000 // appears in the file name the loader parses
-	d := vNewDisk(0, casblob.Zstandard, nil, true)
+// vCrashFetch: a blob is being fetched from the backend when the process is
+// killed at the k-th file-system step; restart; read the key. In compressed
+// CAS mode the backend delivers a finished casblob file, header first: the
+// file on disk carries a perfectly valid header and may be truncated. In the
+// raw modes (AC, uncompressed CAS) the file is the blob itself.
+func vCrashFetch(kind cache.EntryKind, mode casblob.CompressionType) {
+	compressed := kind == cache.CAS && mode == casblob.Zstandard
+	d := vNewDisk(0, mode, nil, true)
 	c, px := d.c, d.px
 	vCrashDirs()
 	vsym.Assume(c.maxBlobSize >= 2<<20)
@@ -152,16 +171,21 @@ func vCrashFetch() {
 	l := vsym.Int64("fileLen")
 	vsym.Assume(l > 45)
 	vsym.Assume(l < 4<<20)
-	head := vsym.Bytes("bh", 45)
-	vsym.Assume(vLE(head, 0, 4) == 0x184D2A50)
-	vsym.Assume(vLE(head, 4, 4) == 2*8+8+1+4+8)
-	vsym.Assume(vLE(head, 8, 8) == logical)
-	vsym.Assume(head[16] == byte(casblob.Zstandard))
-	vsym.Assume(vLE(head, 17, 4) == 2<<20) // one chunk
-	vsym.Assume(vLE(head, 21, 8) == 2)
-	vsym.Assume(vLE(head, 29, 8) == 45)
-	vsym.Assume(vLE(head, 37, 8) == l)
-	bs := &vmodel.MStream{Name: "backend", L: l, FailAt: -1, Head: head}
+	logical := l
+	bs := &vmodel.MStream{Name: "backend", L: l, FailAt: -1}
+	if compressed {
+		logical = 1500000 // appears in the file name the loader parses
+		head := vsym.Bytes("bh", 45)
+		vsym.Assume(vLE(head, 0, 4) == 0x184D2A50)
+		vsym.Assume(vLE(head, 4, 4) == 2*8+8+1+4+8)
+		vsym.Assume(vLE(head, 8, 8) == logical)
+		vsym.Assume(head[16] == byte(casblob.Zstandard))
+		vsym.Assume(vLE(head, 17, 4) == 2<<20) // one chunk
+		vsym.Assume(vLE(head, 21, 8) == 2)
+		vsym.Assume(vLE(head, 29, 8) == 45)
+		vsym.Assume(vLE(head, 37, 8) == l)
+		bs.Head = head
+	}
 	px.getRC, px.getSize = bs, logical
 	d.codec.Arbitrary = true
 	crashAt := vsym.Choose("crashAt", 9) // 0 = no crash
@@ -174,8 +198,10 @@ func vCrashFetch() {
 	} else {
 		vsym.Fact("sizeKnown", "no")
 	}
+	vsym.Fact("kind", kind.String())
+	vsym.Fact("mode", int(mode))
 
-	rc, _, err := c.Get(context.Background(), cache.CAS, vHashA, req, 0)
+	rc, _, err := c.Get(context.Background(), kind, vHashA, req, 0)
 	served := err == nil && rc != nil && !vmodel.FS.Dead
 	if crashAt != 0 && !vmodel.FS.Dead {
 		vsym.Stop("the fetch has fewer file-system steps than the crash point")
@@ -188,7 +214,7 @@ func vCrashFetch() {
 	}
 
 	vmodel.FS.Restart()
-	c2 := &diskCache{dir: vDir, storageMode: casblob.Zstandard, zstd: d.codec, maxBlobSize: 1 << 40, maxProxyBlobSize: 1 << 40, diskWaitSem: c.diskWaitSem}
+	c2 := &diskCache{dir: vDir, storageMode: mode, zstd: d.codec, maxBlobSize: 1 << 40, maxProxyBlobSize: 1 << 40, diskWaitSem: c.diskWaitSem}
 	lerr := c2.loadExistingFiles(c.lru.maxSize, CacheConfig{diskCache: c2})
 	vsym.Assert(lerr == nil, "crashfetch/C08-restart-succeeds")
 	if lerr != nil {
@@ -197,10 +223,10 @@ func vCrashFetch() {
 	var rc2 io.ReadCloser
 	var found int64
 	var gerr error
-	if vsym.Choose("readAsZstd", 2) == 1 {
+	if compressed && vsym.Choose("readAsZstd", 2) == 1 {
 		rc2, found, gerr = c2.GetZstd(context.Background(), vHashA, req, 0)
 	} else {
-		rc2, found, gerr = c2.Get(context.Background(), cache.CAS, vHashA, req, 0)
+		rc2, found, gerr = c2.Get(context.Background(), kind, vHashA, req, 0)
 	}
 	if served {
 		vsym.Reach("fetched-before-crash")
@@ -211,14 +237,16 @@ func vCrashFetch() {
 		return
 	}
 	vsym.Reach("served-after-restart")
-	vsym.Assert(found == logical, "crashfetch/C08-served-entry-has-the-blob-size")
 	okF := len(vmodel.FS.Files) == 1
 	vsym.Assert(okF, "crashfetch/C04-exactly-one-file-after-restart")
 	if okF {
 		// a file cut short by the kill is never served
 		vsym.Assert(vmodel.FS.Files[0].Size == l, "crashfetch/C08-no-torn-entry-served")
 	}
+	vsym.Assert(found == logical, "crashfetch/C08-served-entry-has-the-blob-size")
 	_ = rc2.Close()
 }
 
-func VerifCrashFetchCasZstd() { vCrashFetch() }
+func VerifCrashFetchCasZstd() { vCrashFetch(cache.CAS, casblob.Zstandard) }
+func VerifCrashFetchCasRaw()  { vCrashFetch(cache.CAS, casblob.Identity) }
+func VerifCrashFetchAC()      { vCrashFetch(cache.AC, casblob.Zstandard) }
